@@ -21,7 +21,7 @@ RUNS = {"quick": 1500, "thorough": 30000}
 CHUNK = {"quick": 16, "thorough": 64}
 PROBES = ["keylen_2", "keylen_3_15", "keylen_16_100", "keylen_101_255", "keylen_256", "periodic_key", "opts_1", "opts_2",
           "opts_3", "opts_4", "container_xorpe", "area_at_0", "fault_in_settings", "fault_in_padding", "fault_in_checksum",
-          "fault_in_marker", "fault_in_guard_settings", "fault_checksum_delta", "rejected_under_fault",
+          "fault_in_marker", "fault_in_guard_settings", "fault_checksum_delta", "fault_checksum_zero", "fault_checksum_absent", "rejected_under_fault",
           "recovered_under_fault", "metadata_only", "entry_iter"]
 RULE = ("seeded plans: settings list (1-40 records, zero-padded to 6144) masked with an environmental key of length 2..256 "
         "(each length drawn uniformly; aperiodic or periodic), every non-empty subset of the four guard options, protected "
@@ -58,6 +58,15 @@ def generate(rng, tier, index):
     subset = [o for o in (5, 6, 7, 8) if rng.random() < 0.5] or [rng.choice([5, 6, 7, 8])]
     guard = [[o, OPTS[o], rng.getrandbits(32 if o == 8 else 16)] for o in subset]
     settings = gen_settings(rng, maxn=30)
+    if rng.random() < 0.3:
+        # large configurations: the zero padding then lies mostly beyond offset 4096 of the patch area
+        size = len(builder.encode_settings(settings, pad_to=None))
+        idx = 400
+        while size < rng.choice([2200, 3000, 3800]):
+            ln = rng.randint(200, 700)
+            settings.append([idx, "ptr", hx(bytes(rng.getrandbits(8) | 1 for _ in range(ln)))])
+            size += 6 + ln
+            idx += 1
     container = rng.choice(["raw", "raw", "xorpe"])
     at = rng.choice([0, 0, 1, 7, 100, rng.randint(0, 3000)])
     plan = {"container": container, "size": at + rng.choice([0, 0, 50, 700]), "filler": {"kind": "random", "seed": rng.getrandbits(24)},
@@ -71,7 +80,10 @@ def generate(rng, tier, index):
     if rng.random() < 0.35:
         enc_len = len(builder.encode_settings(settings, pad_to=None))
         for _ in range(rng.choice([1, 1, 2])):
-            w = rng.choice(["settings", "padding", "padding", "checksum", "marker", "guard_settings", "delta"])
+            w = rng.choice(["settings", "padding", "padding", "checksum", "marker", "guard_settings", "delta", "zero", "absent"])
+            if w in ("zero", "absent"):
+                plan["guards"][0]["checksum_mode"] = w
+                continue
             if w == "delta":
                 plan["guards"][0]["checksum_delta"] = rng.choice([1, -1, 2, 0x100, rng.getrandbits(24) or 5])
                 continue
@@ -137,7 +149,7 @@ def execute(plan: dict) -> Result:
     raw, view, area = build(plan)
     g = plan["guards"][0]
     key = unhx(g["env_key"])
-    faulty = bool(plan["faults"]) or bool(g["checksum_delta"])
+    faulty = bool(plan["faults"]) or bool(g["checksum_delta"]) or bool(g.get("checksum_mode"))
     # out of domain: a plain header under a default key somewhere in the image
     for v in {raw, view}:
         for k in DEFAULT_KEYS:
@@ -159,6 +171,9 @@ def execute(plan: dict) -> Result:
     for f in plan["faults"]:
         res.probes["fault_in_" + f["where"]] += 1
         res.faults["flip_" + f["where"]] += 1
+    if g.get("checksum_mode"):
+        res.probes["fault_checksum_" + g["checksum_mode"]] += 1
+        res.faults["stored_checksum_" + g["checksum_mode"]] += 1
     if g["checksum_delta"]:
         res.probes["fault_checksum_delta"] += 1
         res.faults["wrong_stored_checksum"] += 1
@@ -285,3 +300,4 @@ def candidates(plan: dict):
         yield core._set(plan, ["entry"], "from_bytes")
     if plan["guards"][0]["checksum_delta"]:
         yield core._set(plan, ["guards", 0, "checksum_delta"], 1)
+    # larger configurations (more than 2 KiB of settings) matter for chunked key statistics: do not shrink below
